@@ -62,16 +62,22 @@ where
   where
     S: Decode<DA::Decoded> + Clone,
   {
-    match self
-      .keyed_simpledatareader
-      .try_take_one_with(DecodeWrapper::new(decoder))
-    {
-      Err(e) => Err(e),
-      Ok(None) => Ok(None),
-      Ok(Some(kdcc)) => match DeserializedCacheChange::<D>::from_keyed(kdcc) {
-        Some(dcc) => Ok(Some(dcc)),
-        None => Ok(None),
-      },
+    // A change without a value (dispose) has no representation in a no_key topic.
+    // Skip it and look at the next one: returning None here would tell the caller
+    // that nothing more is available, although there may be samples behind it.
+    loop {
+      match self
+        .keyed_simpledatareader
+        .try_take_one_with(DecodeWrapper::new(decoder.clone()))
+      {
+        Err(e) => return Err(e),
+        Ok(None) => return Ok(None),
+        Ok(Some(kdcc)) => {
+          if let Some(dcc) = DeserializedCacheChange::<D>::from_keyed(kdcc) {
+            return Ok(Some(dcc));
+          }
+        }
+      }
     }
   }
 
